@@ -91,6 +91,17 @@ pub fn check_message(c: &MsgCase) -> Check {
             .map_err(|e| Fail::new("rda:decode-error-short-reads", format!("reader delivering {} byte(s) per read: {:?}", step, e)))?;
         ensure!(mc == m, "rda-layout:depends-on-read-chunking", "message decoded from a reader delivering {} byte(s) per read differs from the slice decode", step);
     }
+    // a reader positioned inside a larger source must give the same message
+    {
+        let lead = 1 + c.filler.len() % 29;
+        let mut shifted = vec![0x7Eu8; lead];
+        shifted.extend_from_slice(&raw);
+        let mut cur = std::io::Cursor::new(&shifted[..]);
+        cur.set_position(lead as u64);
+        let mp = no_panic("decode_rda_status_message", || rda::decode_rda_status_message(&mut cur))?
+            .map_err(|e| Fail::new("rda:decode-error-at-offset", format!("reader positioned {} bytes into its source: {:?}", lead, e)))?;
+        ensure!(mp == m, "rda-layout:depends-on-reader-position", "message decoded from a reader positioned {} bytes into its source differs from the slice decode", lead);
+    }
     // frame path
     let msg = MsgSpec { header: c.header.clone(), body: BodySpec::Rda(c.rda.clone(), c.filler.clone()) };
     let bytes = msg.encode();
